@@ -15,4 +15,60 @@ def traces():
             out.append(T("stale-target-ref-%s-%s" % (deck, mode),
                          [{"deck": deck, "xform": [{"kind": "rename_slides", "mode": mode, "seed": 1}]}],
                          [dict(ck, raw=True), {"op": "observe"}, ck, {"op": "restart"}]))
+    box = {"x": 100000, "y": 100000, "cx": 2000000, "cy": 800000}
+    # drop_rel reference count: two runs + one shape share a URL; change one, save; clear all, save
+    U = "http://example.com/"
+    for kind in ("run", "click"):
+        evs = [{"op": "add_slide", "layout": 6}, dict(box, op="add_textbox", slide=0, text="one\ntwo\nthree"), dict(box, op="add_shape", slide=0, type=1),
+               dict(box, op="add_shape", slide=0, type=1)]
+        if kind == "run":
+            evs += [{"op": "run_hyperlink", "slide": 0, "shape": 0, "para": i, "run": 0, "addr": U} for i in range(3)]
+            evs += [ck, {"op": "run_hyperlink", "slide": 0, "shape": 0, "para": 1, "run": 0, "addr": U + "b"}, ck, {"op": "restart"},
+                    {"op": "run_hyperlink", "slide": 0, "shape": 0, "para": 0, "run": 0, "addr": None}, ck,
+                    {"op": "run_hyperlink", "slide": 0, "shape": 0, "para": 2, "run": 0, "addr": None}, ck, {"op": "restart"}]
+        else:
+            evs += [{"op": "click_hyperlink", "slide": 0, "shape": i, "addr": U} for i in range(3)]
+            evs += [ck, {"op": "click_hyperlink", "slide": 0, "shape": 1, "addr": U + "b"}, ck,
+                    {"op": "click_hyperlink", "slide": 0, "shape": 0, "addr": None}, ck, {"op": "click_hyperlink", "slide": 0, "shape": 2, "addr": None}, ck, {"op": "restart"}]
+        out.append(T("shared-url-refcount-%s" % kind, [{"deck": "default"}], evs))
+    # set / read-by-reltype / clear / set again (same target), hyperlink and slide jump
+    evs = [{"op": "add_slide", "layout": 6}, {"op": "add_slide", "layout": 6}, dict(box, op="add_shape", slide=0, type=1),
+           {"op": "click_hyperlink", "slide": 0, "shape": 0, "addr": U}, {"op": "observe"}, {"op": "notes_access", "slide": 1},
+           {"op": "click_hyperlink", "slide": 0, "shape": 0, "addr": None}, {"op": "click_hyperlink", "slide": 0, "shape": 0, "addr": U}, ck,
+           {"op": "click_target", "slide": 0, "shape": 0, "target": 1}, {"op": "observe"}, {"op": "click_target", "slide": 0, "shape": 0, "target": None},
+           {"op": "click_target", "slide": 0, "shape": 0, "target": 1}, ck, {"op": "restart"}]
+    out.append(T("set-clear-set-same-target", [{"deck": "default"}], evs))
+    # non-contiguous / out-of-order slide part names, then additions (next slide partname must not collide)
+    for deck in ("f-sld-slides.pptx", "t-test_slides.pptx", "f-prs-add-slide.pptx", "f-shp-shapes.pptx"):
+        for mode in ("reverse", "rotate", "gaps", "shuffle"):
+            for sd in (1, 2, 3, 4, 5) if mode == "shuffle" else (1,):
+                for pre in ([], [ck], [{"op": "observe"}]):
+                    out.append(T("renamed-then-add-%s-%s-%d-%d" % (deck, mode, sd, len(pre) + (1 if pre and pre[0].get("op") == "observe" else 0)),
+                                 [{"deck": deck, "xform": [{"kind": "rename_slides", "mode": mode, "seed": sd}]}],
+                                 pre + [{"op": "add_slide", "layout": 0}, ck, {"op": "add_slide", "layout": 1}, ck, {"op": "add_slide", "layout": 0}, ck, {"op": "restart"}]))
+    # gap re-use of rIds and part names: chart, OLE, movie x2 (same and different bytes), save, re-open, add again
+    img = {"fmt": "PNG", "w": 3, "h": 3, "seed": 1, "mode": "RGB", "dpi": None}
+    mv = lambda seed: dict(box, op="add_movie", slide=0, movie={"seed": seed, "len": 64}, src={"via": "stream", "pos": 0}, poster=img, psrc={"via": "stream", "pos": 0}, mime="video/mp4")  # noqa: E731
+    ole = dict(box, op="add_ole", slide=0, blob={"seed": 1, "len": 30}, src={"via": "stream", "pos": 0}, prog="XLSX", icon=None, isrc={"via": "stream", "pos": 0}, sized=False)
+    cd = {"kind": "cat", "cat_type": "str", "categories": ["a", "b"], "series": [{"name": "s", "values": [1, 2]}]}
+    ch = dict(box, op="add_chart", slide=0, type="BAR_CLUSTERED", data=cd)
+    evs = [{"op": "add_slide", "layout": 6}, ch, ole, mv(1), mv(1), mv(2), ck, {"op": "restart"}, ch, ole, mv(1), mv(3),
+           {"op": "replace_data", "slide": 0, "shape": 0, "datas": {"cat": cd, "xy": {"kind": "xy", "series": []}, "bubble": {"kind": "bubble", "series": []}}}, ck, {"op": "restart"}]
+    out.append(T("partname-reuse-chart-ole-movie", [{"deck": "default"}], evs))
+    # layout removal: unused layout; refused removal of a used one
+    evs = [{"op": "add_slide", "layout": 1}, {"op": "remove_layout", "layout": 5}, {"op": "remove_layout", "layout": 1}, {"op": "bad_call", "what": "layout_in_use", "i": 0, "slide": 0, "shape": 0},
+           ck, {"op": "restart"}, {"op": "add_slide", "layout": 3}, ck]
+    out.append(T("layout-removal", [{"deck": "default"}], evs))
+    # creators' part-before-element order under source faults; ack rule / liveness under sink faults
+    fl = {"via": "stream", "pos": 0, "fault": {"kind": "eio", "at": 1}}
+    evs = [{"op": "add_slide", "layout": 6},
+           dict(box, op="add_movie", slide=0, movie={"seed": 1, "len": 64}, src={"via": "stream", "pos": 0}, poster=img, psrc=fl, mime="video/mp4"),
+           dict(box, op="add_movie", slide=0, movie={"seed": 1, "len": 64}, src=fl, poster=img, psrc={"via": "stream", "pos": 0}, mime="video/mp4"),
+           dict(box, op="add_ole", slide=0, blob={"seed": 1, "len": 30}, src={"via": "stream", "pos": 0}, prog="XLSX", icon=img, isrc=fl, sized=False),
+           dict(box, op="add_ole", slide=0, blob={"seed": 1, "len": 30}, src=fl, prog="XLSX", icon=None, isrc={"via": "stream", "pos": 0}, sized=False),
+           dict(box, op="add_picture", slide=0, img=img, src={"via": "path", "fname": "x.png", "fault": {"kind": "missing"}}, size="none"), ck]
+    for at in (1, 2, 150, 300):
+        evs += [dict(ck, fault={"kind": "enospc", "at": at, "sticky": at == 2}), ck]
+    evs += [dict(ck, sink="unseekable", fault={"kind": "crash", "at": 40, "torn": 3}), dict(box, op="add_textbox", slide=0, text="after crash"), ck, {"op": "restart"}]
+    out.append(T("faults-in-creators-and-saves", [{"deck": "default"}], evs))
     return out
